@@ -18,6 +18,13 @@ if len(sys.argv) > 3 and sys.argv[3] == "edges":
                "  (BaseException vs Exception), re-use of an object after an error, aliasing between objects the API returned earlier\n"
                "  and internal state, calling order nobody tests (query before first write, the same call twice), empty and\n"
                "  maximal sizes, alternate entry points to the same operation (`[]`, `in`, `del`, context managers, classmethods).\n")
+if len(sys.argv) > 3 and sys.argv[3] == "state":
+    VARIANT = ("* Prefer changes whose effect depends on *state that outlives one call*: memoisation and caches (functools caches, dicts\n"
+               "  kept on an object, class or module), attributes set lazily and never refreshed, mutable default arguments, class\n"
+               "  attributes shared by instances, objects handed out and later mutated in place, lazily consumed generators, two\n"
+               "  objects (tries, iterators, fogs, caches, proofs) built over the same database or sharing a sub-object, a second\n"
+               "  call that behaves differently from the first, clean-up that is skipped on one exit path and only matters for the\n"
+               "  *next* operation.\n")
 prop = [json.loads(l) for l in open(os.path.join(HERE, "properties.jsonl")) if json.loads(l)["id"] == pid][0]
 wt = "/tmp/wt/%s%s" % (pid, suffix)
 os.makedirs("/tmp/wt", exist_ok=True)
